@@ -183,6 +183,9 @@ pub struct TypeOps {
     pub gen: Option<fn(&mut Rng) -> Box<dyn Val>>,
     pub de_str: fn(&str, Option<usize>) -> DeResult,
     pub de_reader: fn(ChunkedRead) -> DeResult,
+    /// `n` values in a row from ONE `Deserializer::from_str` / `Deserializer::from_reader`
+    pub de_str_many: fn(&str, usize) -> Vec<DeResult>,
+    pub de_reader_many: fn(ChunkedRead, usize) -> Vec<DeResult>,
     /// which documented mapping rows this type exercises
     pub rows: &'static [&'static str],
 }
@@ -200,6 +203,35 @@ fn de_str_impl<T: DeserializeOwned + Val>(s: &str, limit: Option<usize>) -> DeRe
     let _ = (l, NonZeroUsize::new(1));
     T::deserialize(&mut de).map(|v| Box::new(v) as Box<dyn Val>).map_err(de_err)
 }
+/// `n & 0xFF` values in a row from one deserializer, stopping at the first error (what happens to a
+/// deserializer that is used again after it returned an error is not stated anywhere) unless bit
+/// 0x100 of `n` is set
+fn de_str_many_impl<T: DeserializeOwned + Val>(s: &str, n: usize) -> Vec<DeResult> {
+    let mut de = Deserializer::from_str(s);
+    let mut out = Vec::new();
+    for _ in 0..(n & 0xFF) {
+        let r = T::deserialize(&mut de).map(|v| Box::new(v) as Box<dyn Val>).map_err(de_err);
+        let stop = r.is_err() && n & 0x100 == 0;
+        out.push(r);
+        if stop {
+            break;
+        }
+    }
+    out
+}
+fn de_reader_many_impl<T: DeserializeOwned + Val>(r: ChunkedRead, n: usize) -> Vec<DeResult> {
+    let mut de = Deserializer::from_reader(r);
+    let mut out = Vec::new();
+    for _ in 0..(n & 0xFF) {
+        let r = T::deserialize(&mut de).map(|v| Box::new(v) as Box<dyn Val>).map_err(de_err);
+        let stop = r.is_err() && n & 0x100 == 0;
+        out.push(r);
+        if stop {
+            break;
+        }
+    }
+    out
+}
 fn de_reader_impl<T: DeserializeOwned + Val>(r: ChunkedRead) -> DeResult {
     quick_xml::de::from_reader::<_, T>(r).map(|v| Box::new(v) as Box<dyn Val>).map_err(de_err)
 }
@@ -214,6 +246,8 @@ macro_rules! ops {
             }),
             de_str: de_str_impl::<$t>,
             de_reader: de_reader_impl::<$t>,
+            de_str_many: de_str_many_impl::<$t>,
+            de_reader_many: de_reader_many_impl::<$t>,
             rows: $rows,
         }
     };
@@ -223,6 +257,8 @@ macro_rules! ops {
             gen: None,
             de_str: de_str_impl::<$t>,
             de_reader: de_reader_impl::<$t>,
+            de_str_many: de_str_many_impl::<$t>,
+            de_reader_many: de_reader_many_impl::<$t>,
             rows: &[],
         }
     };
@@ -1516,6 +1552,8 @@ pub fn family() -> Vec<TypeOps> {
             gen: Some(|r: &mut Rng| -> Box<dyn Val> { Box::new(gen_borrowtwin(r)) }),
             de_str: de_str_borrowing,
             de_reader: de_reader_impl::<BorrowTwin>,
+            de_str_many: de_str_many_impl::<BorrowTwin>,
+            de_reader_many: de_reader_many_impl::<BorrowTwin>,
             rows: &["strings-borrowed-from-the-input"],
         },
     ]
